@@ -31,7 +31,8 @@ REQUIRED = ["tile_checked", "tile_nonconstant_pilot", "prefix_checked:nonnegmean
             "estimate_strictly_between_1_and_N", "never_crossed_returns_N", "random_order_false_cases",
             "contract:Assertion.find_sample_size", "raire_estimator_checked", "comparison_checked_assorter_bound_not_1", "audit_oneaudit_checked", "audit_oneaudit_both_rates_positive", "contest_oneaudit_checked",
             "polling_same_assertion_asked_again_after_tally_revised", "tile_assertion_checked",
-            "tile_assertion_checked:pilot_total_alone_exceeds_N_t", "contest_estimates_with_some_assertions_already_confirmed"]
+            "tile_assertion_checked:pilot_total_alone_exceeds_N_t", "contest_estimates_with_some_assertions_already_confirmed",
+            "tile_pilot_values_above_the_unused_bound:kaplan_tests"]
 ASSUMPTIONS = ["int(1/r) is the documented spacing of assumed errors", "n_big >= 1 for interleave_values (a polling "
                "assertion has winner tally > loser tally >= 0)", "rates are always passed explicitly for comparison audits"]
 N_CASES = {"quick": 64000, "thorough": 512000}
@@ -108,6 +109,12 @@ def gen_pilot(rng, u, t, N):
 def run_tile(case, rng, rec):
     cfg, N = gen_nm(rng, case["Nmax"], force_ro=(False if rng.random() < 0.3 else None))
     x = gen_pilot(rng, cfg["u"], cfg["t"], N)
+    if cfg["test"] in ("kaplan_markov", "kaplan_wald", "kaplan_kolmogorov") and rng.random() < 0.3:
+        # the Kaplan tests are for nonnegative data without an upper bound (the attribute u plays no part in them): pilot
+        # values above it are ordinary pilot values
+        x = [v * 1.5 if v == cfg["u"] else v for v in x]
+        if any(v > cfg["u"] for v in x):
+            rec.count("tile_pilot_values_above_the_unused_bound:kaplan_tests")
     alpha = rng.choice((0.01, 0.05, 0.1, 0.3))
     obj = nn.build(cfg)
     lab = nn.label(cfg)
